@@ -1230,6 +1230,9 @@ def r14(cx):
     cases.append(("UnionRef <- ('T2', data)", "union", lambda e: ("T2", {"w": Opaque("a"), "x": Opaque("b")}), ("new", "T2", 1)))
     cases.append(("UnionRef <- object of a class that is no member", "union", lambda e: I.call(e["X"], [], {"q": Opaque("a"), "_buffer": W.buffer}), ("refuse",)))
     cases.append(("UnionRef <- another UnionRef (same buffer) pointing to a member", "union", "usrc", ("alias-through", "T", 0)))
+    cases.append(("UnionRef <- object of a class DERIVED from a member but with its own fields (another layout, another name)", "union", "derived", ("refuse",)))
+    cases.append(("UnionRef <- another UnionRef (same buffer) that is null", "union", "unull", ("null",)))
+    cases.append(("UnionRef <- another UnionRef (another buffer) that is null", "union", "unull-other", ("null",)))
     n = 0
     for label, kind, build, exp in cases:
         n += 1
@@ -1238,7 +1241,15 @@ def r14(cx):
         def thunk():
             T, T2, X, R, U, other = setup()
             env = {"T": T, "T2": T2, "X": X, "R": R, "U": U, "other": other}
-            if build == "usrc":
+            if build == "derived":
+                MS = I.global_lookup("struct", "MetaStruct")
+                D = I.call(I.class_attrs(MS)["__new__"], [MS, "Derived", (T,), {"n": sc, "m": sc, "k": sc}], {})
+                val = I.call(D, [], {"n": Opaque("a"), "_buffer": W.buffer})
+                out["target"] = val
+            elif build in ("unull", "unull-other"):
+                val = I.call(U, [], {"_buffer": W.buffer if build == "unull" else other})
+                out["target"] = None
+            elif build == "usrc":
                 tgt = I.call(T, [], {"v": Opaque("a"), "_buffer": W.buffer})
                 val = I.call(U, [tgt], {"_buffer": W.buffer})
                 out["target"] = tgt
@@ -1255,10 +1266,19 @@ def r14(cx):
                 h = Obj("instance", {"_buffer": W.buffer, "_offset": Sym(SLOT)}, cls=U)
                 out["get"] = I.call(I.getattr(h, "get"), [], {})
             out["env"] = env
-            return None
+            return dict(out)
 
         res = I.explore(thunk, max_paths=8)
         anchor = "ref::Ref._to_buffer" if kind == "ref" else "ref::MetaUnionRef._to_buffer"
+        if len(res) > 1 and exp[0] != "refuse":
+            # an undecided comparison of symbolic positions: the verdict is taken on the GENERIC path (no accidental
+            # coincidence of positions: every `==` between symbolic values false, every `!=` true); if there is not
+            # exactly one such path the case cannot be decided
+            gen = [r for r in res if all(not (("==" in t and v is True and "!=" not in t) or ("!=" in t and v is False)) for t, v in r["conds"])]
+            cx.recog(len(gen) == 1, None, f"R14 {label}: {len(res)} evaluation paths, {len(gen)} generic")
+            res = gen
+            if res[0]["exc"] is None:
+                out = res[0]["result"]
         if exp[0] == "refuse":
             ok = all(r["exc"] is not None and r["exc"].etype in ("ValueError", "TypeError") for r in res)
             wrote = any(any(e.kind in ("write", "write_array") and getattr(e, "pos", None) is not None and (pol(e.pos) - SLOT).is_const() for e in r["effects"]) for r in res)
@@ -1405,7 +1425,7 @@ def r14(cx):
             cx.bad(None, construct=lab_, detail="; ".join(probs[:2]), anchor="array::Array._to_buffer", sub="list")
         else:
             cx.ok(None, construct=lab_, detail="every item aliases the object given (stored word = its position - slot position), nothing is constructed", anchor="array::Array._to_buffer", sub="list")
-    cx.need(n >= 20, "R14 cases")
+    cx.need(n >= 23, "R14 cases")
 
 
 # ------------------------------------------------------------------------------------------ L1b bulk path
@@ -1514,6 +1534,37 @@ def l6(cx):
     if ok:
         ok = I.getattr(out["info"], "size") == 18 and out["mem"].get(repr(OFF)) == 18 and not [e for e in out["eff"] if e.kind in ("update_from_buffer", "update_from_xbuffer")]
     cx.check(ok, None, construct="String(10): size word 18, no data written (reads back as the empty string from zeroed storage)", detail="capacity form reserves capacity+8 bytes", bad_detail="capacity form does not plan capacity+8 bytes / writes data", anchor="string::MetaString._inspect_args")
+    # a String OBJECT as value (with spare capacity, e.g. made by String(24) and filled later): the writer copies the
+    # whole source object, so the planner must reserve the source's size -- planned size = bytes written
+    for cap, text in ((24, None), (40, None), (None, "abcdefghijklmnopq")):
+        out = {}
+
+        def thunk4():
+            W.copy_bytes = W.zero_fill = True
+            String = I.global_lookup("string", "String")
+            src = I.call(String, [cap if cap is not None else text], {"_buffer": W.mk_buffer("srcbuf")})
+            out["srcsize"] = pol(src.attrs["_size"])
+            info = I.call(I.getattr(String, "_inspect_args"), [src], {})
+            out["planned"] = pol(I.getattr(info, "size"))
+            n0 = len(I.effects)
+            I.call(I.getattr(String, "_to_buffer"), [W.buffer, Sym(OFF), src, info], {})
+            out["eff"] = list(I.effects[n0:])
+
+        try:
+            res = _run(lab, thunk4)
+        finally:
+            W.copy_bytes = W.zero_fill = False
+        lbl = f"String <- String object of {cap + 8 if cap is not None else 'text'} bytes" + (" (spare capacity)" if cap is not None else "")
+        cx.recog(len(res) == 1 and res[0]["exc"] is None, None, f"L6 {lbl}: evaluation did not end in one normal path ({res[0]['exc'] if res else ''})")
+        ext = Poly.const(0)
+        for e in out["eff"]:
+            if e.kind == "update_from_xbuffer":
+                ext = pol(e.args[3]) + (pol(e.args[0]) - OFF)
+            elif e.kind == "update_from_buffer" and isinstance(e.args[1], (bytes, bytearray)):
+                ext = Poly.const(len(e.args[1])) + (pol(e.args[0]) - OFF)
+        ok = ext.is_const() and out["planned"].is_const() and ext.const_value() <= out["planned"].const_value()
+        cx.check(ok, None, construct=f"{lbl}: planned {out['planned']!r} bytes, written extent {ext!r}", detail="the bytes written for a String object value stay inside the size the planner reserved for it",
+                 bad_detail=f"the planner reserves {out['planned']!r} bytes but the writer copies {ext!r}: the excess lands on the next field / the next object", anchor="string::MetaString._inspect_args", sub="object")
     # reader (evaluated): after writing each string, _from_buffer must read exactly the written payload
     # ([off+8, off+size)) and give the string back without the NUL padding
     for s in STRINGS:
